@@ -46,7 +46,8 @@ template<class CT> void c_static_case(Ctx &c) {
         family = "spec";
     } else {
         eps = c.rng.pick<size_t>({1, 1, 2, 3, 7, 64, 1000, 4096});
-        keys = gen_int_keys<K>(c.rng, eps, c.thorough() && c.case_idx % 20 == 19 ? 200000 : 5000, family);
+        size_t force_n = c.case_idx % 16 == 15 ? c.rng.pick<size_t>({32768, 40000, 65537}) : 0; // chunked, multi-threaded build
+        keys = gen_int_keys<K>(c.rng, eps, c.thorough() && c.case_idx % 20 == 19 ? 200000 : 5000, family, force_n);
     }
     std::vector<K> run;
     c.dumper = [&]() {
